@@ -41,19 +41,21 @@ theorem c17_unique (start : Nat) (ops : List Op) (h : creations ops < M64) :
 
 /-- Right after `Clone`: the original reads as before; the clone's request headers are the
 original's with `_opid` set to the fresh id (so equal at every other name), response
-headers and ephemeral properties are equal, and so is the timeout (it lives in `_timeout`). -/
-theorem c17_clone_equal (s : State) (c : Nat) (x : Ctx) (h : WF s) (hc : s.ctxs[c]? = some x) :
-    ∃ vo vc, view s c = some vo ∧ view (step s (.clone c)).1 c = some vo ∧
-      view (step s (.clone c)).1 s.ctxs.length = some vc ∧
+headers are equal, and so is the timeout (it lives in `_timeout`); ephemeral properties are
+equal for `FContextImpl.Clone` and EMPTY for the generic package-level `Clone` of a foreign
+FContext (`g = true`: that branch has no access to them) — stated as the code is. -/
+theorem c17_clone_equal (s : State) (c : Nat) (g : Bool) (x : Ctx) (h : WF s) (hc : s.ctxs[c]? = some x) :
+    ∃ vo vc, view s c = some vo ∧ view (step s (.clone c g)).1 c = some vo ∧
+      view (step s (.clone c g)).1 s.ctxs.length = some vc ∧
       vc.req = vo.req.set opIdHeader (dec s.bump) ∧
       vc.req.get? opIdHeader = some (dec s.bump) ∧
       (∀ k, k ≠ opIdHeader → vc.req.get? k = vo.req.get? k) ∧
-      vc.resp = vo.resp ∧ vc.eph = vo.eph ∧ timeoutOf vc.req = timeoutOf vo.req := by
-  obtain ⟨h1, h2, h3, h4, h5⟩ := clone_step s c x hc
-  refine ⟨viewOf s.heap x, ⟨(hget s.heap x.req).set opIdHeader (dec s.bump), hget s.heap x.resp, hget s.heap x.eph⟩,
+      vc.resp = vo.resp ∧ vc.eph = (if g then [] else vo.eph) ∧ timeoutOf vc.req = timeoutOf vo.req := by
+  obtain ⟨h1, h2, h3, h4, h5⟩ := clone_step s c g x hc
+  refine ⟨viewOf s.heap x, ⟨(hget s.heap x.req).set opIdHeader (dec s.bump), hget s.heap x.resp, if g then [] else hget s.heap x.eph⟩,
     ?_, ?_, ?_, rfl, get?_set_self _ _ _, ?_, rfl, rfl, ?_⟩
   · simp [view, hc]
-  · have : view (step s (.clone c)).1 c = view s c := by
+  · have : view (step s (.clone c g)).1 c = view s c := by
       apply view_eq_of s _ c x hc (step_ctxs_old s _ c x hc)
       intro r hr
       have := h.ctxs x (List.mem_of_getElem? hc) r hr
@@ -71,21 +73,21 @@ after a clone (index `s.ctxs.length`) of context `c`, (1) no sequence of operati
 not aimed at the clone changes any read of the clone, and (2) no sequence of operations aimed
 at the clone (or at no context: creations, reads, accessors, writes to returned maps)
 changes any read of the original. `view` determines every read (`c17_reads_from_view`). -/
-theorem c17_clone_independent (s : State) (h : RInv s) (c : Nat) (x : Ctx) (hc : s.ctxs[c]? = some x) :
+theorem c17_clone_independent (s : State) (h : RInv s) (c : Nat) (g : Bool) (x : Ctx) (hc : s.ctxs[c]? = some x) :
     (∀ ops, (∀ op ∈ ops, op.target ≠ some s.ctxs.length) →
-      view (run (step s (.clone c)).1 ops).1 s.ctxs.length = view (step s (.clone c)).1 s.ctxs.length) ∧
+      view (run (step s (.clone c g)).1 ops).1 s.ctxs.length = view (step s (.clone c g)).1 s.ctxs.length) ∧
     (∀ ops, (∀ op ∈ ops, op.target = none ∨ op.target = some s.ctxs.length) →
-      view (run (step s (.clone c)).1 ops).1 c = view (step s (.clone c)).1 c) := by
-  obtain ⟨h1, h2, h3, h4, h5⟩ := clone_step s c x hc
-  have wf1 : WF (step s (.clone c)).1 := WF_step s _ h.wf
-  have hj : (step s (.clone c)).1.ctxs[s.ctxs.length]? = some ⟨s.heap.length, s.heap.length + 1, s.heap.length + 2⟩ := by
+      view (run (step s (.clone c g)).1 ops).1 c = view (step s (.clone c g)).1 c) := by
+  obtain ⟨h1, h2, h3, h4, h5⟩ := clone_step s c g x hc
+  have wf1 : WF (step s (.clone c g)).1 := WF_step s _ h.wf
+  have hj : (step s (.clone c g)).1.ctxs[s.ctxs.length]? = some ⟨s.heap.length, s.heap.length + 1, s.heap.length + 2⟩ := by
     simp [h1]
-  have hc1 := step_ctxs_old s (.clone c) c x hc
+  have hc1 := step_ctxs_old s (.clone c g) c x hc
   constructor
   · intro ops hops
     apply view_eq_of _ _ _ _ hj (run_ctxs_old ops _ _ _ hj)
     intro r hr
-    exact (owned_frame_run ops _ _ r wf1 (clone_owns s c x h hc r hr) hops).1
+    exact (owned_frame_run ops _ _ r wf1 (clone_owns s c g x h hc r hr) hops).1
   · intro ops hops
     apply view_eq_of _ _ _ _ hc1 (run_ctxs_old ops _ _ _ hc1)
     intro r hr
@@ -149,19 +151,19 @@ theorem c17_ids_parse (start : Nat) (ops : List Op) :
 
 /-- The independence theorem at history level: take ANY history, clone any context it
 produced, continue with ANY operations. -/
-theorem c17_clone_independent_history (start : Nat) (pre : List Op) (c : Nat) (x : Ctx)
+theorem c17_clone_independent_history (start : Nat) (pre : List Op) (c : Nat) (g : Bool) (x : Ctx)
     (hc : (run (State.init start) pre).1.ctxs[c]? = some x) :
     let s := (run (State.init start) pre).1
     (∀ post, (∀ op ∈ post, op.target ≠ some s.ctxs.length) →
-      view (run (step s (.clone c)).1 post).1 s.ctxs.length = view (step s (.clone c)).1 s.ctxs.length) ∧
+      view (run (step s (.clone c g)).1 post).1 s.ctxs.length = view (step s (.clone c g)).1 s.ctxs.length) ∧
     (∀ post, (∀ op ∈ post, op.target = none ∨ op.target = some s.ctxs.length) →
-      view (run (step s (.clone c)).1 post).1 c = view (step s (.clone c)).1 c) :=
-  c17_clone_independent _ (c17_reachable_inv start pre) c x hc
+      view (run (step s (.clone c g)).1 post).1 c = view (step s (.clone c g)).1 c) :=
+  c17_clone_independent _ (c17_reachable_inv start pre) c g x hc
 
 /-- Non-interference: a context produced by `NewFContext` or `Clone` reads, after ANY
 history, exactly what it would read had only the operations aimed at it been executed. -/
 theorem c17_noninterference (s : State) (h : RInv s) (mk : Op)
-    (hmk : (∃ cid, mk = .new cid) ∨ (∃ c x, mk = .clone c ∧ s.ctxs[c]? = some x)) (ops : List Op) :
+    (hmk : (∃ cid, mk = .new cid) ∨ (∃ c g x, mk = .clone c g ∧ s.ctxs[c]? = some x)) (ops : List Op) :
     view (run (step s mk).1 ops).1 s.ctxs.length =
     view (run (step s mk).1 (ops.filter fun op => op.target = some s.ctxs.length)).1 s.ctxs.length := by
   have wf1 : WF (step s mk).1 := WF_step s mk h.wf
@@ -169,10 +171,10 @@ theorem c17_noninterference (s : State) (h : RInv s) (mk : Op)
       Owns (step s mk).1 s.ctxs.length r ∧
       (step s mk).1.ctxs[s.ctxs.length]? = some ⟨s.heap.length, s.heap.length + 1, s.heap.length + 2⟩ := by
     intro r hr
-    rcases hmk with ⟨cid, rfl⟩ | ⟨c, x, rfl, hc⟩
+    rcases hmk with ⟨cid, rfl⟩ | ⟨c, g, x, rfl, hc⟩
     · exact new_owns s cid h.wf r hr
-    · refine ⟨clone_owns s c x h hc r hr, ?_⟩
-      rw [(clone_step s c x hc).1]; simp
+    · refine ⟨clone_owns s c g x h hc r hr, ?_⟩
+      rw [(clone_step s c g x hc).1]; simp
   have hj := (key s.heap.length (by simp [Ctx.refs])).2
   have ag : AgreeOn (step s mk).1 (step s mk).1 s.ctxs.length ⟨s.heap.length, s.heap.length + 1, s.heap.length + 2⟩ :=
     { wfa := wf1, wfb := wf1, ca := hj, cb := hj, oa := fun r hr => (key r hr).1, ob := fun r hr => (key r hr).1
@@ -194,11 +196,11 @@ theorem c17_received_share_protocol_eph :
 /-! Non-vacuity. -/
 
 -- a history with creations of all three kinds satisfies the hypothesis of `c17_unique`
-example : creations [.newProto, .new [99], .clone 0, .fromRequest 0 [(opIdHeader, [49])], .add 1 .req k1 v1] < M64 := by
+example : creations [.newProto, .new [99], .clone 0 false, .fromRequest 0 [(opIdHeader, [49])], .add 1 .req k1 v1] < M64 := by
   decide
 
 -- ... and really produces three contexts (so the list of ids is not empty)
-example : (run (State.init 7) [.newProto, .new [99], .clone 0, .fromRequest 0 [(opIdHeader, [49])]]).1.ctxs.length = 3 := by
+example : (run (State.init 7) [.newProto, .new [99], .clone 0 false, .fromRequest 0 [(opIdHeader, [49])]]).1.ctxs.length = 3 := by
   decide
 
 -- the hypotheses of `c17_clone_equal` / `c17_clone_independent` / `c17_accessors_copy` hold in a
@@ -215,9 +217,18 @@ example : (run (State.init 0) [.new [99], .get 0 .req, .retSet 0 k1 v1, .retRead
   simp [newReq, Hdrs.get?, k1, cidHeader, opIdHeader, timeoutHeader]
 
 -- a mutation on the original after the clone is a real change of the original
-example : (run (State.init 0) [.new [99], .clone 0, .add 0 .req k1 v1, .read 0 (.header .req k1),
+example : (run (State.init 0) [.new [99], .clone 0 false, .add 0 .req k1 v1, .read 0 (.header .req k1),
     .read 1 (.header .req k1)]).2.drop 3 = [.val (some v1), .val none] := by
   decide
+
+-- the generic package-level Clone (foreign FContext): fresh id like every other creation, request headers
+-- kept, ephemeral properties EMPTY — next to FContextImpl.Clone, which copies them
+example : creations [.new [99], .clone 0 true, .clone 1 true, .clone 2 false] < M64 := by decide
+example : (run (State.init 0) [.new [99], .add 0 .eph k1 v1, .add 0 .req k1 v1, .clone 0 true, .clone 0 false,
+    .read 1 (.header .eph k1), .read 2 (.header .eph k1), .read 1 (.header .req k1)]).2.drop 5
+    = [.val none, .val (some v1), .val (some v1)] := by
+  decide
+
 
 /-- **Lock discipline behind the model's atomic steps** (FContext), decided by the kernel on facts
 REGENERATED from lib/go's source on every check (harness/locks → FV/Generated/Locks.lean): no function
